@@ -63,11 +63,11 @@ static uint64_t e2m_hash(const e2_model *m)
 /* ---- start states ---- */
 static const char *E2_PARSED[3] = {
   "x=1\n[A]\ny=2\n",
-  "x=1\nx=2\n[E]\n[A]\nx=1\n",          /* duplicate group-less key, empty section */
+  "x=1\ny=5\nx=2\n[E]\n[A]\nx=1\n",     /* duplicate group-less key with another key between the two definitions, empty section */
   "[A]\nx=1\n[B]\nx=1\n[A]\nz=2\n",     /* re-opened section */
 };
 static const char *E2_STARTN[8] = { "econf_newKeyFile('=','#')", "econf_newIniFile()", "econf_newKeyFile_with_options(\"\")",
-  "parse(x=1|[A]|y=2)", "parse(x=1|x=2|[E]|[A]|x=1)", "parse([A]|x=1|[B]|x=1|[A]|z=2)", "newKeyFile+7 keys in [C]", "newKeyFile+8 keys in [C]" };
+  "parse(x=1|[A]|y=2)", "parse(x=1|y=5|x=2|[E]|[A]|x=1)", "parse([A]|x=1|[B]|x=1|[A]|z=2)", "newKeyFile+7 keys in [C]", "newKeyFile+8 keys in [C]" };
 
 static econf_file *e2_start(int s, e2_model *m)
 {
@@ -82,7 +82,7 @@ static econf_file *e2_start(int s, e2_model *m)
     if (written[s - 3] != getpid()) { mc_write_file(p, E2_PARSED[s - 3], strlen(E2_PARSED[s - 3])); written[s - 3] = getpid(); }
     rc = econf_readFile(&kf, p, "=", "#");
     if (s == 3) { e2m_append(m, NULL, "x", "1"); e2m_append(m, "A", "y", "2"); }
-    if (s == 4) { e2m_append(m, NULL, "x", "1"); e2m_append(m, NULL, "x", "2"); e2m_addsec(m, "E"); e2m_append(m, "A", "x", "1"); }
+    if (s == 4) { e2m_append(m, NULL, "x", "1"); e2m_append(m, NULL, "y", "5"); e2m_append(m, NULL, "x", "2"); e2m_addsec(m, "E"); e2m_append(m, "A", "x", "1"); }
     if (s == 5) { e2m_append(m, "A", "x", "1"); e2m_append(m, "B", "x", "1"); e2m_append(m, "A", "z", "2"); }
   }
   mc_st->libcalls++;
